@@ -65,7 +65,7 @@ def draw_config(rng, mode="bounded", allow_restart=False, faults=True):
     c["bias_refs"] = rng.random() < 0.5
     c["near_ids"] = rng.random() < 0.15
     # a directed motif woven into the random steps of some runs (see QsRun._motif_step)
-    c["motif"] = {"kind": rng.choice(["reincarnate", "reincarnate", "deadlines", "window", "window", "window"]),
+    c["motif"] = {"kind": rng.choice(["reincarnate", "reincarnate", "deadlines", "window", "window", "window", "waitstorm", "waitstorm"]),
                   "drop": rng.random() < 0.6, "p": rng.choice([0.4, 0.7]), "short": rng.choice([5, 60]),
                   "restart": allow_restart, "events": rng.randint(2, 3),
                   "pull": rng.choice([[], [], "one", "two"])} \
@@ -314,6 +314,52 @@ class QsRun:
         self.fault("motif-storm-in-hand-off-window")
         return ["run"]
 
+    def _motif_waitstorm(self, m, sendable):
+        """'A storm around a waiter': a client waits for a job; before (or just after) the loop runs, two or
+        three more things happen - the job finished or killed, the waiter's connection closed or reset, a
+        second client waiting for the same job, the job dropped or added again, a tick."""
+        rng, model, c = self.rng, self.model, self.config
+        k = m["stage"]
+        m["stage"] += 1
+        if k == 0:
+            live = sorted([j for j in model.jobs.values() if j.state != "d"], key=lambda j: j.serial)
+            cl = [n for n in sendable if n in c.clients] or sendable
+            if not live:
+                m["stage"] = 0
+                m["adds"] = m.get("adds", 0) + 1
+                if m["adds"] > 3:
+                    self._motif_state = None
+                    return None
+                return ["send", rng.choice(sendable), "qadd", self._add_args()]
+            m["J"], m["C"] = rng.choice(live).jobid, rng.choice(cl)
+            return ["send", m["C"], "qwait", {"jobids": [m["J"]]}]
+        if k == 1 and rng.random() < 0.5:
+            return ["run"]
+        if k < 2 + m["events"]:
+            others = [n for n in sendable if n != m["C"]] or sendable
+            jid = m["J"]
+            ev = rng.choice(["finish", "kill", "kill", "disconnect", "disconnect", "reset", "wait", "wait", "readd", "drop", "tick"])
+            if ev == "finish":
+                return ["send", rng.choice(others), "qfinish", {"jobid": jid, "result": {"r": 2}}]
+            if ev == "kill":
+                return ["send", rng.choice(others), "qkill", {"jobids": [jid] * rng.choice([1, 1, 2])}]
+            if ev in ("disconnect", "reset") and self.sim.is_live(m["C"]) and c.faults:
+                return [ev, m["C"]]
+            if ev == "wait":
+                return ["send", rng.choice(others), "qwait", {"jobids": [jid]}]
+            if ev == "readd":
+                jm = model.jobs.get(jid)
+                a = self._add_args(channel=jm.channel if jm is not None else rng.choice(c.channels))
+                a.pop("wait", None)
+                a["jobid"] = jid
+                return ["send", rng.choice(others), "qadd", a]
+            if ev == "drop":
+                return ["send", rng.choice(others), "qdrop", {"jobids": [jid]}]
+            return ["tick", 1]
+        self._motif_state = None
+        self.fault("motif-storm-around-a-waiter")
+        return ["run"]
+
     def _motif_new_add(self, timeout):
         a = self._add_args()
         a.pop("wait", None)
@@ -336,6 +382,8 @@ class QsRun:
         cid = self.sim.cid
         if m.get("kind") == "window":
             return self._motif_window(m, sendable)
+        if m.get("kind") == "waitstorm":
+            return self._motif_waitstorm(m, sendable)
         if m.get("kind") == "deadlines":
             # 'deadlines out of order across a restart': a job with a long time limit is added before
             # one with a short limit, the server restarts, and the clock passes the short limit only
@@ -395,7 +443,7 @@ class QsRun:
             self._motif_done = True
             self._motif_state = dict(c["motif"], stage=0)
         ms = getattr(self, "_motif_state", None)
-        if ms is not None and (ms.get("kind") == "window" or
+        if ms is not None and (ms.get("kind") in ("window", "waitstorm") or
                                (self._events_in_quantum == 0 and rng.random() < ms["p"])):
             st = self._motif_step()
             if st is not None:
